@@ -449,3 +449,11 @@ def eval_script(commands, ops, truth=cast_to_bool, else_once=False):
     if len(st) == 0:
         return False
     return truth(st[-1])
+
+
+def multisig_redeem(m, pubkeys):
+    """standard m-of-n multisig script: OP_m <pubkey 1> ... <pubkey n> OP_n OP_CHECKMULTISIG"""
+    r = bytes([80 + m])
+    for pk in pubkeys:
+        r = r + push_data(pk)
+    return r + bytes([80 + len(pubkeys), 0xae])
